@@ -89,6 +89,13 @@ def _gen(rng, force=None):
     )
     if force:
         p.update(force)
+    elif rng.integers(0, 5) == 0:
+        # reference exactly on a matching scale (either nf side): zero-length first segment, and the
+        # later queries on the same object must still depend on the path only
+        k = int(rng.integers(0, 3))
+        p["mu_ref"] = float(np.sqrt(p["masses2"][k]) * float(rng.uniform(0.98, 1.02)))
+        p["ratios"][k] = 1.0 if rng.integers(0, 2) else p["ratios"][k]
+        p["masses2"][k] = p["mu_ref"] ** 2 / p["ratios"][k]
     walls = [a * b for a, b in zip(p["masses2"], p["ratios"])]
     nfd = cp.nf_default(p["mu_ref"] ** 2, walls)
     # nf_ref: mostly the default one, sometimes a neighbour (allowed: the atlas then walks to the wall first)
